@@ -235,9 +235,10 @@ value bytes on the right (161..168 bits in the 160-bit tree) is not well formed.
 (`validNodeKey` of the model); weakening it in the source breaks this obligation. -/
 theorem source_validates_total_bits : Gen.SmtFacts.validNodeKeyBoundsTotalBits = true := by decide
 
-/-- whether the source also checks the length of proof-node values (the hardening below); the driver runs the model with
-this flag -/
-def liveStrict : Bool := Gen.SmtFacts.verifyProofChecksValueLength
+/-- **Tie to the source.** `VerifyProof` also validates the length of every proof node's value (`validNodeValue`: a hash,
+or the 20-byte value of one of the two reserved leaves), i.e. the verifier that exists is `verifyFixed true`. Removing
+the check from store/smt.go breaks this obligation (and the corpus `resplit-key-value-boundary` supplies the forged proof). -/
+theorem source_checks_value_length : Gen.SmtFacts.verifyProofChecksValueLength = true := by decide
 
 /-- 24-bit keys, state {0x400103 ↦ [9]}: the honest membership proof of the key, with the boundary of `proof[0]` moved one
 byte to the LEFT (`Key' = [0x40,0x01,0x03]` — the perfectly well-formed 12-bit key `0100 0000 0001` — and
@@ -271,10 +272,32 @@ theorem not_sound_with_unframed_hash : ¬ Sound (verifyFixed false idH (h4 idH) 
   simp only [hS] at this
   cases this
 
-/-- the value-length check (`strict`; hardening patch notes/patches/C16-value-length.diff) rejects the re-split proof: with
-values of fixed length the key/value boundary of a node cannot move -/
+/-- the value-length check (`strict = true`, the verifier that exists) rejects the re-split proof -/
 theorem strict_rejects_resplit :
     verifyFixed true idH (h4 idH) 24 resplitKey [] false (resplitTree.value (h4 idH)) resplitForged = .errInvalidProof := by
   decide +kernel
+
+/-- with values of fixed length the key/value boundary of ONE node cannot move: the bytes `key ‖ value` of a node with a
+32-byte value determine the node -/
+theorem resplit_one_node_impossible (p q : PNode) (hp : p.value.length = 32) (hq : q.value.length = 32)
+    (h : p.key ++ p.value = q.key ++ q.value) : p.key = q.key ∧ p.value = q.value := by
+  have hl : p.key.length = q.key.length := by
+    have := congrArg List.length h
+    simp only [List.length_append, hp, hq] at this
+    omega
+  exact List.append_inj h hl
+
+/-- …but fixed value lengths and well-formed keys do NOT make the whole 4-field input `lk ‖ lv ‖ rk ‖ rv` uniquely
+parseable (the boundary between the left value and the right key can still move when the bytes happen to be well-formed
+keys), so `fixed_sound` keeps its explicit hypothesis `H4Inj` on the node hash: it is an idealisation of the tree's hashing
+format, not something the verifier can enforce. Two different 4-tuples of valid 8-bit-tree fields with 32-byte values and
+the same concatenation: -/
+theorem fixed_lengths_do_not_make_concatenation_injective :
+    let v : Bytes := 0 :: List.replicate 31 0
+    let a : Bytes × Bytes × Bytes × Bytes := ([1, 0], v, [0, 0, 0], v)            -- keys "1" and "00000000 0"
+    let b : Bytes × Bytes × Bytes × Bytes := ([1, 0, 0], v, [0, 0], v)            -- keys "00000001 0" and "0"
+    a ≠ b ∧ a.1 ++ a.2.1 ++ a.2.2.1 ++ a.2.2.2 = b.1 ++ b.2.1 ++ b.2.2.1 ++ b.2.2.2
+    ∧ validNodeKey 160 a.1 = true ∧ validNodeKey 160 a.2.2.1 = true
+    ∧ validNodeKey 160 b.1 = true ∧ validNodeKey 160 b.2.2.1 = true := by decide
 
 end Canopy.Smt
